@@ -6,13 +6,11 @@ import F1Verif.Generated.Facts
 import F1Verif.Expected
 namespace F1.Props.FactsC06
 
--- (t_Reset, t_Fail: re-proved semantically on the regenerated MiniGo programs, see Props/Refine*.lean)
+-- (t_Reset, t_Fail, active_Run, active_Setup: re-proved semantically on the regenerated MiniGo programs, see Props/Refine*.lean)
 
 theorem fact_run_run : F1.Generated.skel_run_run = F1.Expected.skel_run_run := by rfl
 theorem fact_run_teardown : F1.Generated.skel_run_teardown = F1.Expected.skel_run_teardown := by rfl
 theorem fact_run_reportSetupFailure : F1.Generated.skel_run_reportSetupFailure = F1.Expected.skel_run_reportSetupFailure := by rfl
-theorem fact_active_Run : F1.Generated.skel_active_Run = F1.Expected.skel_active_Run := by rfl
-theorem fact_active_Setup : F1.Generated.skel_active_Setup = F1.Expected.skel_active_Setup := by rfl
 theorem fact_t_teardown : F1.Generated.skel_t_teardown = F1.Expected.skel_t_teardown := by rfl
 theorem fact_t_CheckResults : F1.Generated.skel_t_CheckResults = F1.Expected.skel_t_CheckResults := by rfl
 theorem fact_t_Cleanup : F1.Generated.skel_t_Cleanup = F1.Expected.skel_t_Cleanup := by rfl
